@@ -29,7 +29,7 @@ Definition obs_of_outcome (during_compile : bool) (r : outcome value) : obs :=
   end.
 
 (* KindOnly: the expression exposes the unspecified iteration order of an object with
-   several members; only value-versus-error is compared *)
+   several members; only "returns (a value or an evaluation error)" is compared *)
 Inductive cmp_mode := Exact | UpToPerm | KindOnly.
 
 (* equality of values up to the order of array elements, recursively *)
@@ -74,9 +74,13 @@ Definition val_match (m : cmp_mode) (a b : value) : bool :=
   end.
 
 (* cmp_off: compare syntax-error offsets too *)
+Definition kind_only (m : cmp_mode) : bool := match m with KindOnly => true | _ => false end.
 Definition obs_match (m : cmp_mode) (cmp_off : bool) (model go : obs) : bool :=
   match model, go with
   | OVal a, OVal b => val_match m a b
+  (* with an exposed iteration order even value-versus-error can legitimately
+     differ (values(o)[0] may or may not be what the next function accepts) *)
+  | OVal _, OEvalErr | OEvalErr, OVal _ => kind_only m
   | OSyn a, OSyn b => if cmp_off then Z.eqb a b else true
   | OCompErr, OCompErr => true
   | OEvalErr, OEvalErr => true
